@@ -473,6 +473,28 @@ func c17Universe() []interface{} {
 
 func genC17(cw *caseWriter, seed uint64, tier string) {
 	r := newRng(seed)
+	// values of every dynamic type the cast universe knows — named types, arrays of named bytes, typed nils, pointers,
+	// composites — stored in a row and then read through every getter, exported under every format and handed to
+	// every caster: whatever comes back, nothing panics
+	for i, src := range c10Sources() {
+		src := src
+		emitProbe(cw, fmt.Sprintf("c10 source %d (%T) through getters, exports and casters", i, src), func() string {
+			row := jsonline.NewRow()
+			row.Set("v", src)
+			_, _, _, _ = row.GetBytes("v"), row.GetString("v"), row.GetInt64("v"), row.GetTime("v")
+			_, _, _, _ = row.GetFloat64("v"), row.GetBool("v"), row.GetUint8("v"), row.GetInt("v")
+			for _, f := range []jsonline.Format{jsonline.String, jsonline.Numeric, jsonline.Boolean, jsonline.Binary, jsonline.Date, jsonline.DateTime, jsonline.Timestamp, jsonline.Auto} {
+				_, _ = jsonline.NewValue(src, f, nil).Export()
+				_, _ = jsonline.NewValue(src, f, nil).MarshalJSON()
+				var sink bytes.Buffer
+				_ = jsonline.NewTemplate().With("v", f, nil).GetExporter(&sink).Export(map[string]interface{}{"v": src})
+			}
+			for _, c := range allCasters {
+				_, _ = casterFns[c](src)
+			}
+			return "done"
+		})
+	}
 	// whatever an importer hands back for a bad line — (nil, err) or anything else — can be used without a crash
 	badLines := []string{`}`, `]`, `,`, `:`, `}}`, ` }`, `"`, `\\`, "\x00", `{"a":`, `{"a":1} x`, `[1]`, ``, `{"a":"notanumber"}`, `{`, "{\"a\":1}\n{\"a\":\n{\"a\":3}"}
 	for _, bl := range badLines {
